@@ -74,8 +74,10 @@ class ShapelyPolygon(Domain):
             new_points = self._sample_in_triangulation(t, scaled_n, device)
             if new_points is not None:
                 points = torch.cat((points, new_points), dim=0)
-            if len(points) == n:
-                break
+        if len(points) > n:
+            # the triangulation covers the convex hull: for non convex polygons the
+            # triangle shares add up to more than n. Thin out at random, stays uniform.
+            points = points[torch.randperm(len(points), device=device)[:n]]
         points = self._check_enough_points_sampled(n, points, triangles, device)
         return Points(points, self.space)
 
